@@ -36,6 +36,13 @@ static size_t spec_normalize(char const *in, size_t n, char *out)
 }
 '''
 
+PRE += r'''
+/* ---- is_in_root: strings as ids; canonical() (realpath) and is_file_prefix (own job) are oracles whose arguments are recorded */
+size_t g_join_root, g_join_path, g_joined_id, g_canon_arg, g_canon_res; bool g_canon_ok, g_prefix_ok; int g_canon_calls, g_prefix_calls; size_t g_prefix_a, g_prefix_b;
+static size_t str_join_slash(size_t root, size_t path) { g_join_root = root; g_join_path = path; return g_joined_id; }
+static bool canonical_rec(size_t normal, size_t *real) { g_canon_calls++; g_canon_arg = normal; if(!g_canon_ok) return 0; *real = g_canon_res; return 1; }
+static bool prefix_rec(size_t a, size_t b) { g_prefix_calls++; g_prefix_a = a; g_prefix_b = b; return g_prefix_ok; }
+'''
 functions = [
     dict(stub=True, cname='verif_memcmp', sig='int verif_memcmp(char const *a, char const *b, size_t n)',
          contract='/* C11 memcmp: 0 iff the n bytes are equal (arbitrary ghost index) */\n__CPROVER_requires(n <= BUF_CAP && __CPROVER_r_ok(a, n) && __CPROVER_r_ok(b, n))\n__CPROVER_assigns()\n'
@@ -57,6 +64,16 @@ __CPROVER_ensures(__CPROVER_return_value ==> (prefix_n <= full_n && (g_k < prefi
          rewrites=[(r'path\.empty\(\)', '(*path_n == 0)', 1), (r'path\[(\w+)\]', r'path_p[\1]', 1), (r'path = "/" \+ path;', 'prepend_slash(path_p, path_n);', 1),
                    (r'std::string::iterator', 'char *', 4), (r'path\.begin\(\)', 'path_p', 5), (r'path\.end\(\)', '(path_p + *path_n)', 4),
                    (r'std::find\(', 'find_ch_m(', 1), (r'std::copy\(', 'copy_fwd(', 1), (r'path\.resize\(out - path_p\);', '*path_n = (size_t)(out - path_p);', 1)]),
+    dict(cname='fs_is_in_root', file=F, locate=lit('bool file_server::is_in_root(std::string const &input_path,std::string const &root,std::string &real)'), sig='bool fs_is_in_root(size_t input_path, size_t root, size_t *real)', refs=['real'],
+         rewrites=[(r'std::string normal=root \+ "/" \+ input_path;', 'size_t normal = str_join_slash(root, input_path);', 1), (r'canonical\(normal,real\)', 'canonical_rec(normal, &real)', 0), (r'is_file_prefix\((\w+),(\w+)\)', r'prefix_rec(\1, \2)', 0)],
+         contract=r'''
+__CPROVER_requires(__CPROVER_rw_ok(real, sizeof(*real)) && g_canon_calls == 0 && g_prefix_calls == 0)
+__CPROVER_assigns(*real, g_join_root, g_join_path, g_canon_calls, g_canon_arg, g_prefix_calls, g_prefix_a, g_prefix_b)
+/* with symlink checking on, a path is served only if root/path could be resolved AND the RESOLVED name still lies under the root (whole-component prefix test on the canonical name, not on the request) */
+__CPROVER_ensures(__CPROVER_return_value ==> (g_canon_calls == 1 && g_canon_ok && g_canon_arg == g_joined_id && g_join_root == root && g_join_path == input_path &&
+                  g_prefix_calls == 1 && g_prefix_ok && g_prefix_a == root && g_prefix_b == g_canon_res && *real == g_canon_res))
+__CPROVER_ensures(!__CPROVER_return_value ==> (!g_canon_ok || !g_prefix_ok))
+'''),
 ]
 
 jobs = [
@@ -81,6 +98,7 @@ jobs = [
     size_t k; __CPROVER_assume(k < rn);
     __CPROVER_assert(pn != rn || path[k] == ref[k], "normalised path equals the reference normalisation ('.', '..', '//' resolved; never above the root)");
     VERIF_REACH;''', witness=dict(bufs=['path']), replay='c13:normalize_path', replay_link=['-L{BUILD}', '-lcppcms', '-L{BUILD}/booster', '-lbooster']),
+    dict(name='fs_is_in_root', props=P, enforce='fs_is_in_root', harness='size_t a, b, r, j, cr; int c1, c2; g_joined_id = j; g_canon_res = cr; g_canon_ok = c1 != 0; g_prefix_ok = c2 != 0; g_canon_calls = 0; g_prefix_calls = 0; fs_is_in_root(a, b, &r); VERIF_REACH;'),
 ]
 
 UNIT = dict(
